@@ -1,5 +1,5 @@
 """What MANIFEST.json claims, per property (edited as checks go green)."""
-HOOK_COMMITS = ["3b06268"]
+HOOK_COMMITS = ["3b06268", "175c5a9", "8b9ca65", "bfbbd83", "c7825ef", "dbd50df", "069efd0"]
 NOT_APPLICABLE = {}
 TB = ("Trusted: Lean 4.33.0 kernel (thorough: + leanchecker); axioms at most propext, Classical.choice, Quot.sound "
       "(audited by #print axioms on every run); the translator extract/ and the differential harness (testing, not proof). ")
@@ -134,5 +134,41 @@ CLAIMS = {
           "parked between enqueue and hand-off during the failure; oracle: all calls return, success iff the reply was complete.",
   "note": TB + "'within bounded time' is observed (8 s watchdog), not proved; fairness of the Go scheduler assumed. The real-code race between "
           "the writer goroutine and ReqFree is outside the model (found and fixed through the correspondence, see DESIGN).",
+ },
+ "C03": {
+  "technique": "Lean 4 proof (respond-once invariant over all schedules of an event model of recv/process/Respond/flush/send; progress) + acceptor correspondence on logs of the code's lock-protected regions + wire oracle",
+  "text": "reply_at_most_once, replies_only_to_requests (invariant Ref/Once/Bd preserved by all 19 events, hence in every reachable state for "
+          "any number of outstanding requests, any completion order, any interleaving), extra_answer_ignored, wire_append_only, "
+          "answered_reaches_wire and respond_never_blocked (the reply path needs no step of any other request). Correspondence: forced "
+          "schedules on the real server (see rule), the log of every lock-protected region replayed through the model, and the statement "
+          "oracle on the decoded wire (exactly one correctly tagged reply with the implementation's content).",
+  "note": TB + "'Exactly one' is proved as at-most-one in every state plus enabledness of the reply path; that the Go scheduler runs an "
+          "enabled goroutine is assumed. Reply content is M3 (C04/C05/C12). The model is mirrored by hand and tied by the acceptor only.",
+ },
+ "C07": {
+  "technique": "Lean 4 proof (cancelled-never-runs invariant, at-most-one Rflush, immediate Rflush when the tag is absent) + acceptor correspondence with Tflush forced at every stage + wire/state oracle",
+  "text": "rflush_at_most_once, cancel_before_start_marks, cancelled_never_runs (once flush.mark has cancelled a request that had not passed "
+          "process.check, no continuation of any schedule hands it to the implementation), cancelled_gets_no_reply, "
+          "rflush_immediate_if_absent. The ordering clause (reply before Rflush) is checked on the implementation by the oracle in every "
+          "forced ordering and by the acceptor's comparison of flush targets/chains; its model theorem is future work (DESIGN).",
+  "note": TB + "reply_before_rflush is not yet a theorem (needs the flush-chain invariant); it is decided by the oracle and the acceptor. "
+          "Flushes aimed at shared-tag groups (K-6) and a Tflush flushing itself are outside the quantifier.",
+ },
+ "C08": {
+  "technique": "Lean 4 proof (enabledness of every worker/reply step in every state = no head-of-line blocking; shared-tag queueing) + acceptor correspondence + blocked-subset and tag-group oracles",
+  "text": "no_head_of_line_worker, no_head_of_line_reply, writer_never_blocked, parking_disables_nothing (steps outside the implementation "
+          "are enabled whatever other requests do), shared_tag_queued and successor_started_after_reply_queued. Correspondence: subsets "
+          "parked in the implementation while others, late requests and another connection must complete; shared-tag groups executed and "
+          "answered in arrival order.",
+  "note": TB + "Full FIFO of a tag group as a model theorem (wire order = arrival order) is future work; it is decided by the oracle. "
+          "Real-time promptness is observed, not proved.",
+ },
+ "C11": {
+  "technique": "Lean 4 proof (after close nothing blocks, nothing is accepted or written, close happens once) + acceptor correspondence + disconnect oracle (ConnClosed, FidDestroy, goroutine census, bystander)",
+  "text": "closed_stays_closed, respond_never_stuck_after_close, reply_after_close_dropped, worker_never_stuck_after_close over the event "
+          "model. Correspondence: disconnects with fids in every state and 0..4 requests executing; every log accepted by the model; "
+          "oracle: ConnClosed once, every valid fid destroyed exactly once, goroutine census back to baseline, bystander untouched.",
+  "note": TB + "ConnClosed/FidDestroy accounting and goroutine/descriptor leaks are observed on the implementation, not proved. Files of a "
+          "Topen/Tcreate still executing at the disconnect (Ufs) are not yet covered (K-4, DESIGN).",
  },
 }
